@@ -108,6 +108,12 @@ class Q:
     b: Any = 1
     ix: int = -1
 
+    def __getattr__(self, name):
+        """permissive: an attribute the object does not have reads as None (dunder names excepted, as usual)"""
+        if name.startswith("__"):
+            raise AttributeError(name)
+        return None
+
     def __post_init__(self):
         self.u = self.a       # an attribute the class does not declare (no field, no class attribute): it exists on instances only
 
